@@ -69,7 +69,17 @@ def reweight_cases(rng, n, ctx):
         olist = [_obs_on(rng, lay, reps, kind) for _ in range(1 if container in ('single', 'method') else int(rng.integers(2, 4)))]
         if bad == 'extra_cfg':
             name, idl = lay[reps[0]]
-            ext = sorted(set(list(idl)[:6]) | {max(idl) + 3})
+            # a configuration the weight lacks: beyond its last one, before its first one, or inside a gap of its list
+            have = set(idl)
+            holes = [c for c in range(min(idl) + 1, max(idl)) if c not in have]
+            where = str(rng.choice(['after', 'before', 'gap', 'gap'])) if holes else str(rng.choice(['after', 'before']))
+            if where == 'before' and min(idl) < 2:
+                where = 'after'
+            alien = max(idl) + 3 if where == 'after' else min(idl) - 1 if where == 'before' else int(rng.choice(holes))
+            keep = list(idl)[:6] if where != 'gap' else [c for c in idl if abs(c - alien) <= 12][:8]
+            ext = sorted(set(keep) | {alien})
+            if len(ext) < 5:
+                ext = sorted(set(list(idl)[:6]) | {alien})
             olist[0] = pe.Obs([rng.normal(size=len(ext))] + [rng.normal(size=len(lay[r][1])) for r in reps[1:]],
                               [name] + [lay[r][0] for r in reps[1:]], idl=[ext] + [lay[r][1] for r in reps[1:]])
         elif bad == 'other_chain':
